@@ -137,4 +137,80 @@ theorem rowsOf_row_le (s : Nat) (d : List Int) : ∀ r ∈ rowsOf s d, r.length 
   · simp
   · exact rowsOfAux_row_le s _ d
 
+/-! ## sizes and membership for the generic row operations (used by the invariant) -/
+
+theorem len_swapRemove {β : Type} (l : List β) (i : Nat) :
+    (swapRemove l i).length = if i < l.length then l.length - 1 else l.length := by
+  unfold swapRemove
+  split
+  · rename_i h
+    cases hl : l.getLast? with
+    | none =>
+      have : l = [] := by simpa using hl
+      subst this; simp at h
+    | some last => simp
+  · rfl
+
+theorem mem_swapRemove {β : Type} (l : List β) (i : Nat) : ∀ x ∈ swapRemove l i, x ∈ l := by
+  intro x hx
+  unfold swapRemove at hx
+  split at hx
+  · cases hl : l.getLast? with
+    | none => rw [hl] at hx; exact hx
+    | some last =>
+      rw [hl] at hx
+      have h1 : x ∈ l.set i last := List.dropLast_subset _ hx
+      rcases List.mem_or_eq_of_mem_set h1 with h2 | h2
+      · exact h2
+      · subst h2; exact List.mem_of_getLast? hl
+  · exact hx
+
+theorem len_foldl_swapRemove_congr {β γ : Type} (js : List Nat) (l : List β) (l' : List γ)
+    (h : l.length = l'.length) :
+    (js.foldl swapRemove l).length = (js.foldl swapRemove l').length := by
+  induction js generalizing l l' with
+  | nil => simpa using h
+  | cons j js ih =>
+    simp only [List.foldl_cons]
+    apply ih
+    rw [len_swapRemove, len_swapRemove, h]
+
+theorem mem_foldl_swapRemove {β : Type} (js : List Nat) (l : List β) :
+    ∀ x ∈ js.foldl swapRemove l, x ∈ l := by
+  induction js generalizing l with
+  | nil => intro x hx; simpa using hx
+  | cons j js ih =>
+    intro x hx
+    simp only [List.foldl_cons] at hx
+    exact mem_swapRemove l j x (ih _ x hx)
+
+theorem len_removeRows_congr {β γ : Type} (idx : List Nat) (l : List β) (l' : List γ)
+    (h : l.length = l'.length) : (removeRows idx l).length = (removeRows idx l').length :=
+  len_foldl_swapRemove_congr _ l l' h
+
+theorem mem_removeRows {β : Type} (idx : List Nat) (l : List β) :
+    ∀ x ∈ removeRows idx l, x ∈ l := mem_foldl_swapRemove _ l
+
+theorem mem_gather {β : Type} (src : List Nat) (l : List β) : ∀ x ∈ gather src l, x ∈ l := by
+  intro x hx
+  unfold gather at hx
+  obtain ⟨i, _, hi⟩ := List.mem_filterMap.mp hx
+  exact List.mem_of_getElem? hi
+
+theorem len_gather_congr {β γ : Type} (src : List Nat) (l : List β) (l' : List γ)
+    (h : l.length = l'.length) : (gather src l).length = (gather src l').length := by
+  unfold gather
+  induction src with
+  | nil => rfl
+  | cons i src ih =>
+    by_cases hi : i < l.length
+    · have hi' : i < l'.length := h ▸ hi
+      simp [List.getElem?_eq_getElem hi, List.getElem?_eq_getElem hi', ih]
+    · have hi' : ¬ i < l'.length := h ▸ hi
+      simp [List.getElem?_eq_none (Nat.le_of_not_lt hi),
+        List.getElem?_eq_none (Nat.le_of_not_lt hi'), ih]
+
+theorem len_gather_le {β : Type} (src : List Nat) (l : List β) :
+    (gather src l).length ≤ src.length := List.length_filterMap_le _ _
+
 end PysphVerif.PArray
